@@ -19,7 +19,7 @@ import time
 
 VERIF = os.path.dirname(os.path.dirname(os.path.abspath(__file__)))
 SEEDED = os.path.join(VERIF, "seeded")
-SCRATCH = "/tmp/seeded-confirm"
+SCRATCH = os.environ.get("SEEDED_SCRATCH", "/tmp/seeded-confirm")     # SEEDED_SCRATCH: a second confirmation lane
 
 
 def pick_patch(d, cwd):
